@@ -545,7 +545,7 @@ fn main() {
     // =========================================================== family wld + H1 renders
     let hdr_w = "From TeraV Require Import Model.Value Model.Instr Model.VM Model.StackCheck Corr.CorrC07.";
     let mut wld = Sink::new(&args.out, "wld", hdr_w, "check_world");
-    wld.shard_cap_set(12);
+    wld.shard_cap_set(20);
     let kind_vals = kinds();
     let mut accepted_sets = 0usize;
     let mut rejected_sets = 0usize;
